@@ -118,6 +118,8 @@ def work(args):
             elif mode == 1:    # promotion inside one constructor call
                 tns = [R.choice(list(TYPES)) for _ in range(3)]
                 qs = [F(R.randint(-8, 8)) for _ in range(3)]
+                # floats that are NOT short dyadic rationals (0.1, 1/3, 2.5e-7, ...): promotion must keep the exact value of the float
+                qs = [F(R.choice([0.1, -0.3, 1 / 3, 2.5e-7, 1e-9, 123456.789, -7.3, 0.7, 1e-17])) if (t == 'float' and R.random() < 0.5) else q for t, q in zip(tns, qs)]
                 items = [conv(t, q) for t, q in zip(tns, qs)]
                 ctor = R.choice(['Vector', 'VectorList', 'Point', 'PointList'])
                 if ctor == 'Vector':
